@@ -16,7 +16,8 @@ from runner import enc, Infra
 from engines import warc_common as wc
 from engines import c05 as base
 
-RULE = ('recorder: the C05 scenarios ({gz, plain} x {single file, max_size rollover incl. 0, appending second life}) with '
+RULE = ('recorder: the C05 scenarios ({gz, plain} x {single file, max_size rollover incl. 0}) x 1-3 lives on the same prefix, a later '
+        'life appending or starting over (appending=False on a used prefix with an existing PREFIX.cdx: ~1/3 of the scenarios), with '
         'cdx on in 85%; header blocks of 0-40 lines, CRLF/LF/mixed, folded, around and beyond the 4096-byte mark (Content-Type '
         'before and after it), Content-Type absent / garbage / with parameters / +,. subtypes / duplicated / odd case; '
         'hdr: generated header blocks + byte-level mutations incl. str.splitlines separators; mime/status: grammar + noise. '
@@ -139,9 +140,11 @@ def run(ctx):
     scns = []
     for _ in range(ctx.scale(400, 5000)):
         s = wc.gen_scenario(rng, big_p=0.25)
+        seen_cdx = False
         for r in s['runs']:
-            if rng.random() < 0.9:
+            if rng.random() < 0.9 or (seen_cdx and not r['cfg']['appending']):
                 r['cfg']['cdx'] = True
+            seen_cdx = seen_cdx or r['cfg']['cdx']
         scns.append(s)
     base.stream_recorder(ctx, scns, pid=PID)
     from engines import warc_client
